@@ -162,26 +162,33 @@ PROPS["C03"] = dict(
     ],
 )
 
-L12 = dict(EFU)
-L12.update({r"spec_lc": 80, r"spec_off": 80, r"LineIndex.*5build": 80, r"walk_forward_from": 18,
-            r"EliasFano.*5build": 80, r"filter.*count|5count": 80})
+def l12(n, lines):
+    """n = text length, lines = maximum number of line starts."""
+    return {r"spec_lc|spec_off|c12_": n + 3, r"LineIndex.*5build": n + 2, r"filter|5count|Filter|fold": n + 2,
+            r"ef_build|ef_predecessor|EliasFano.*5build|EliasFano.*11predecessor": lines + 2, r"walk_forward_from": min(18, lines + 2)}
+
 
 PROPS["C12"] = dict(
     module="c12",
-    bounds=("all texts of 0..=5 arbitrary bytes with every query pair (q1; q2; q2 repeated) up to len+2, every (line, column) up to len+2; "
+    bounds=("all texts of 0..=8 arbitrary bytes with every query pair (q1; q2; q2 repeated) up to len+2, every (line, column) up to len+2; "
             "two concrete skeleton texts of 20 and 40 lines (LF/CRLF/CR mixes, empty lines) with every query pair up to len+3"),
-    outside="symbolic texts longer than 5 bytes (Elias-Fano with symbolic element count is out of reach); texts >= 256 lines (second select sample)",
-    assumptions=["AVX2 block popcount path modelled; in-word select on the CTZ path"],
+    outside="symbolic texts longer than 10 bytes; texts with more than 48 lines; the EliasFano encoding itself (C03)",
+    assumptions=["the EliasFano container (build/get/predecessor/len) is replaced by its plain-sequence specification; C03 decides that the real one answers identically"],
     harnesses=[
-        H("c12_text_len0", timeout=600, unwindset=L12, bounds="empty text"),
-        H("c12_text_len1", timeout=600, unwindset=L12, bounds="all 1-byte texts"),
-        H("c12_text_len2", timeout=900, unwindset=L12, bounds="all 2-byte texts"),
-        H("c12_text_len3", timeout=900, unwindset=L12, bounds="all 3-byte texts"),
-        H("c12_text_len4", timeout=1800, unwindset=L12, bounds="all 4-byte texts"),
-        H("c12_text_len5", timeout=2700, unwindset=L12, tier="thorough", bounds="all 5-byte texts"),
-        H("c12_skeleton_20", timeout=1800, unwindset=L12, bounds="concrete 20-line text, all query pairs"),
-        H("c12_skeleton_40", timeout=2700, unwindset=L12, tier="thorough", bounds="concrete 40-line text, all query pairs"),
-        H("c12_witness_must_fail", kind="witness", tier="thorough", timeout=900, unwindset=L12),
+        H("c12_text_len0", timeout=2700, unwindset=l12(0, 1), tier="quick", bounds="all 0-byte texts, all query histories (q1; q2; q2)"),
+        H("c12_text_len1", timeout=2700, unwindset=l12(1, 1), tier="quick", bounds="all 1-byte texts, all query histories (q1; q2; q2)"),
+        H("c12_text_len2", timeout=2700, unwindset=l12(2, 2), tier="quick", bounds="all 2-byte texts, all query histories (q1; q2; q2)"),
+        H("c12_text_len3", timeout=2700, unwindset=l12(3, 3), tier="quick", bounds="all 3-byte texts, all query histories (q1; q2; q2)"),
+        H("c12_text_len4", timeout=2700, unwindset=l12(4, 4), tier="quick", bounds="all 4-byte texts, all query histories (q1; q2; q2)"),
+        H("c12_text_len5", timeout=2700, unwindset=l12(5, 5), tier="thorough", bounds="all 5-byte texts, all query histories (q1; q2; q2)"),
+        H("c12_text_len6", timeout=2700, unwindset=l12(6, 6), tier="thorough", bounds="all 6-byte texts, all query histories (q1; q2; q2)"),
+        H("c12_text_len8", timeout=2700, unwindset=l12(8, 8), tier="thorough", bounds="all 8-byte texts, all query histories (q1; q2; q2)"),
+        H("c12_inverse_len3", timeout=2700, unwindset=l12(3, 3), tier="quick", bounds="all 3-byte texts: to_offset and round trip"),
+        H("c12_inverse_len5", timeout=2700, unwindset=l12(5, 5), tier="thorough", bounds="all 5-byte texts: to_offset and round trip"),
+        H("c12_inverse_len7", timeout=2700, unwindset=l12(7, 7), tier="thorough", bounds="all 7-byte texts: to_offset and round trip"),
+        H("c12_skeleton_20", timeout=2700, unwindset=l12(46, 24), bounds="concrete 20-line text, all query pairs"),
+        H("c12_skeleton_40", timeout=2700, unwindset=l12(76, 44), tier="thorough", bounds="concrete 40-line text, all query pairs"),
+        H("c12_witness_must_fail", kind="witness", tier="thorough", timeout=900, unwindset=l12(3, 3)),
     ],
 )
 
